@@ -116,10 +116,12 @@ def exec_call_table(tree, fname, src_name, fields):
         raise TranslateError(f"{fname}: Exec(...) must use keyword arguments only")
     path_names = set()
     for st in fn.body:
-        if isinstance(st, ast.Assign) and _src(st.targets[0]) == "new_path":
+        if isinstance(st, ast.Assign) and len(st.targets) == 1 and isinstance(st.targets[0], ast.Name):
+            if st.value is call:
+                continue
             if _src(st.value) != f"{src_name}.path.branch(cond)":
-                raise TranslateError(f"{fname}: new_path = {_src(st.value)}")
-            path_names.add("new_path")
+                raise TranslateError(f"{fname}: {_src(st.targets[0])} = {_src(st.value)}")
+            path_names.add(st.targets[0].id)
     if fname == "run_message":
         if [a.arg for a in fn.args.args] != ["self", "pre_ex", "message", "path"]:
             raise TranslateError("run_message: unexpected signature")
